@@ -318,7 +318,7 @@ def _file_identity(prog, chk, lm):
                 good += [n for n in rets if n.ln == st.get('ln')]
     err = [n for n in g.nodes if n.kind == 'edge' and n.pol and SX.is_node(n.e) and n.e.get('k') == 'mcall' and SX.short(n.e.get('callee', '')) == 'operator bool'
            and 'error_code' in (SX.strip(n.e.get('obj')) or {}).get('t', '')]
-    plain = g.reachable([g.entry], avoid=err)
+    plain = g.reachable([g.entry], avoid=err, use_x=False)      # (a handler is entered only after the file system threw: an error path too)
     lexical = [n for n in rets if n not in good and n.id in plain]
     chk.ob('R19.1', f, good[0].ln if good else f.ln, bool(good) and not lexical,
            '%s returns the path as the file system resolves it (canonical / weakly_canonical); a purely lexical spelling is returned only after the file system reported an error%s'
